@@ -77,47 +77,39 @@ func checkB1(c *Ctx, pr *prioRoles) {
 	tagSym := func(fr *Frame, v ssa.Value) string {
 		return symField(p.SymFrame(fr, v), "Priority").StripInst().String()
 	}
-	cur := ""
+	// state: "<sent 0|1|2>:<tactic decrements>:<actual increments>:<stopped 0|1>"; the order of the three
+	// events inside the sending function does not matter, the totals at its return do
 	bump := func(st string, which int) string {
-		// st = "sent:<t>:<a>:<tag>"
-		parts := strings.SplitN(st, ":", 4)
-		n := []byte{parts[1][0], parts[2][0]}
-		if n[which] < '2' {
-			n[which]++
+		b := []byte(st)
+		if b[which*2] < '2' {
+			b[which*2]++
 		}
-		return fmt.Sprintf("sent:%c:%c:%s", n[0], n[1], parts[3])
+		return string(b)
 	}
-	onSend := func(fr *Frame, st string, v ssa.Value, where string) []string {
-		if strings.HasPrefix(st, "sent") {
-			problems = append(problems, "second output send at "+where+" in one call of the sending function")
-		}
-		return []string{"sent:0:0:" + tagSym(fr, v)}
-	}
+	tagParam := p.Sym(fn.Params[pr.sendPrioIdx]).String()
 	fl := &Flow{P: p}
 	fl.Instr = func(fr *Frame, st string, in ssa.Instruction) []string {
 		if s, ok := in.(*ssa.Send); ok && isOutRole(p.chanRole(s.Chan)) {
-			return onSend(fr, st, s.X, p.InstrPos(in))
+			if t := tagSym(fr, s.X); t != tagParam {
+				problems = append(problems, "the value sent at "+p.InstrPos(in)+" is tagged "+t+", not the sending function's priority parameter")
+			}
+			return []string{bump(st, 0)}
 		}
 		w, ok := p.mapWriteOf(fr, in)
 		if !ok || (w.Field != "tactic" && w.Field != "actual") {
 			return nil
 		}
-		if !strings.HasPrefix(st, "sent") {
-			problems = append(problems, fmt.Sprintf("%s[%s] is changed at %s although no output send succeeded on this path", w.Field, w.Key, p.InstrPos(in)))
-			return nil
-		}
-		tag := strings.SplitN(st, ":", 4)[3]
 		switch {
 		case w.Field == "tactic" && w.Kind == "delta" && w.Delta == -1:
-			if w.Key.String() != tag {
-				problems = append(problems, fmt.Sprintf("tactic[%s] is decremented at %s but the item was sent with tag %s", w.Key, p.InstrPos(in), tag))
-			}
-			return []string{bump(st, 0)}
-		case w.Field == "actual" && w.Kind == "delta" && w.Delta == 1:
-			if w.Key.String() != tag {
-				problems = append(problems, fmt.Sprintf("actual[%s] is incremented at %s but the item was sent with tag %s", w.Key, p.InstrPos(in), tag))
+			if w.Key.String() != tagParam {
+				problems = append(problems, fmt.Sprintf("tactic[%s] is decremented at %s but the item is sent with tag %s", w.Key, p.InstrPos(in), tagParam))
 			}
 			return []string{bump(st, 1)}
+		case w.Field == "actual" && w.Kind == "delta" && w.Delta == 1:
+			if w.Key.String() != tagParam {
+				problems = append(problems, fmt.Sprintf("actual[%s] is incremented at %s but the item is sent with tag %s", w.Key, p.InstrPos(in), tagParam))
+			}
+			return []string{bump(st, 2)}
 		default:
 			problems = append(problems, fmt.Sprintf("unexpected update %s[%s] (%s %+d) at %s in the sending function", w.Field, w.Key, w.Kind, w.Delta, p.InstrPos(in)))
 		}
@@ -125,26 +117,41 @@ func checkB1(c *Ctx, pr *prioRoles) {
 	}
 	fl.Edge = func(fr *Frame, st string, from *ssa.BasicBlock, succ int) []string {
 		if _, cs, _ := p.CaseOnEdge(from, succ); cs != nil && cs.State.Dir == 1 && isOutRole(p.chanRole(cs.State.Chan)) {
-			return onSend(fr, st, cs.State.Send, p.InstrPos(from.Instrs[len(from.Instrs)-1]))
+			if t := tagSym(fr, cs.State.Send); t != tagParam {
+				problems = append(problems, "the value sent at "+p.InstrPos(from.Instrs[len(from.Instrs)-1])+" is tagged "+t+", not the sending function's priority parameter")
+			}
+			return []string{bump(st, 0)}
 		}
 		return nil
 	}
+	okPath := false
 	fl.Exit = func(fr *Frame, st string, ret *ssa.Return) []string {
-		if fr.Parent != nil || !strings.HasPrefix(st, "sent") {
+		if fr.Parent != nil {
 			return nil
 		}
-		parts := strings.SplitN(st, ":", 4)
-		if parts[1] != "1" {
-			problems = append(problems, fmt.Sprintf("after a successful send the path returning at %s decrements tactic %s times (must be exactly once): the round's allowance is not consumed and more items than allotted are sent", p.InstrPos(ret), parts[1]))
-		}
-		if parts[2] != "1" {
-			problems = append(problems, fmt.Sprintf("after a successful send the path returning at %s increments actual %s times (must be exactly once): in-flight items are miscounted", p.InstrPos(ret), parts[2]))
+		sent, dec, inc := st[0], st[2], st[4]
+		switch sent {
+		case '0':
+			if dec != '0' || inc != '0' {
+				problems = append(problems, fmt.Sprintf("the path returning at %s changes the bookkeeping (tactic-=%c, actual+=%c) although no output send succeeded on it", p.InstrPos(ret), dec, inc))
+			}
+		case '1':
+			if dec != '1' {
+				problems = append(problems, fmt.Sprintf("after a successful send the path returning at %s decrements tactic %c times (must be exactly once): the round's allowance is not consumed and more items than allotted are sent", p.InstrPos(ret), dec))
+			}
+			if inc != '1' {
+				problems = append(problems, fmt.Sprintf("after a successful send the path returning at %s increments actual %c times (must be exactly once): in-flight items are miscounted", p.InstrPos(ret), inc))
+			}
+			if dec == '1' && inc == '1' {
+				okPath = true
+			}
+		default:
+			problems = append(problems, "more than one output send in one call of the sending function (path returning at "+p.InstrPos(ret)+")")
 		}
 		return nil
 	}
-	_ = cur
-	fl.Run(fn, []string{"pre"})
-	if !fl.sawState("sent:1:1:"+p.Sym(fn.Params[pr.sendPrioIdx]).String()) && len(problems) == 0 {
+	fl.Run(fn, []string{"0:0:0"})
+	if !okPath && len(problems) == 0 {
 		problems = append(problems, "no path with a successful send and complete bookkeeping found")
 	}
 	c.R.Check(len(problems) == 0, "B1", p.FnKey(fn), p.Pos(fn.Pos()), "send ok => tactic[k]-=1, actual[k]+=1 (k = tag); otherwise nothing", strings.Join(dedup(problems), "; "))
